@@ -115,6 +115,57 @@ def local_aliases(fn: ast.AST) -> dict[str, ast.AST]:
                 base = base.value
             if isinstance(base, ast.Name) and counts.get(base.id, 0) == 0 and attrs_stable(k, chain_attrs):
                 out[k] = _load(v)
+    # a temporary for an attribute of a variable that the function itself rebinds (`parent = scope._parent_scope ... scope = parent`,
+    # the hand-written form of `scope = scope._parent_scope`): t stands for `b.chain` at every use provided that (i) every use of t
+    # follows its single definition inside the same block (so the definition dominates it, also per loop iteration), (ii) no store
+    # to b inside the enclosing loop lies between the definition and a use of t - the store `b = t` itself reads t before it writes b -
+    # and (iii) the attributes of the chain are not written by the function
+    for k, c in counts.items():
+        v = rhs.get(k)
+        if k in out or c != 1 or v is None or k in params:
+            continue
+        v = strip_cast(v)
+        if not (isinstance(v, ast.Attribute) and not contains(v, (ast.Call, ast.Subscript))):
+            continue
+        base = v
+        while isinstance(base, ast.Attribute):
+            base = base.value
+        if not (isinstance(base, ast.Name) and counts.get(base.id, 0) > 0 and base.id != k):
+            continue
+        if any(a_ in attr_stores for a_ in {x.attr for x in ast.walk(v) if isinstance(x, ast.Attribute)}):
+            continue
+        d = defstmt[k]
+        if not isinstance(d, (ast.Assign, ast.AnnAssign)):
+            continue
+        holder = getattr(d, "_parent", None)
+        blk = next((getattr(holder, fld) for fld in ("body", "orelse", "finalbody") if isinstance(getattr(holder, fld, None), list) and d in getattr(holder, fld)), None)
+        if blk is None:
+            continue
+        after = blk[blk.index(d) + 1:]
+        inside = {id(x) for s_ in after for x in ast.walk(s_)}
+        uses = [x for x in own_walk(fn) if isinstance(x, ast.Name) and x.id == k and isinstance(x.ctx, ast.Load)]
+        if not uses or any(id(x) not in inside for x in uses):
+            continue
+        pos = lambda n_: (getattr(n_, "lineno", 0), getattr(n_, "col_offset", 0))
+        okk = True
+        for s_ in after:
+            for x in ast.walk(s_):
+                if isinstance(x, ast.Name) and x.id == base.id and isinstance(x.ctx, (ast.Store, ast.Del)):
+                    st_ = x
+                    while st_ is not None and not isinstance(st_, ast.stmt):
+                        st_ = getattr(st_, "_parent", None)
+                    rhs_ids = {id(y) for y in ast.walk(st_.value)} if isinstance(st_, (ast.Assign, ast.AnnAssign)) and st_.value is not None else set()
+                    # a use of t positioned after this store (other than in the store's own right-hand side) would read a stale value
+                    if any(pos(u) > pos(st_) and id(u) not in rhs_ids for u in uses):
+                        okk = False
+        # nested function bodies and loops *inside* `after` that re-run earlier statements: a store to b in a nested loop before a use
+        loops_in_after = [x for s_ in after for x in ast.walk(s_) if isinstance(x, (ast.While, ast.For, ast.AsyncFor))]
+        for lp in loops_in_after:
+            ids = {id(y) for y in ast.walk(lp)}
+            if any(isinstance(y, ast.Name) and y.id == base.id and isinstance(y.ctx, (ast.Store, ast.Del)) for y in ast.walk(lp)) and any(id(u) in ids for u in uses):
+                okk = False
+        if okk:
+            out[k] = _load(v)
     # aliases of aliases (`state = self._state; receivers = state.waiting_receivers`): resolve to the full chain
     changed = True
     rounds = 0
